@@ -20,7 +20,7 @@ Qed.
 Lemma mval_eqb_refl : forall v, mval_eqb v v = true.
 Proof.
   destruct v; simpl; try apply N.eqb_refl; try apply Z.eqb_refl.
-  rewrite Z.sub_diag. reflexivity.
+  rewrite !Z.eqb_refl. reflexivity.
 Qed.
 Lemma meta_equiv_refl : forall m, meta_equiv m m = true.
 Proof. intros m. unfold meta_equiv. apply forallb_forall. intros x _. apply mval_eqb_refl. Qed.
@@ -162,7 +162,7 @@ Lemma apply_delay_others : forall v c mt k, k <> K_DFOR -> k <> K_DUNTIL ->
 Proof. intros. unfold apply_delay. rewrite !mget_mset_other; auto. Qed.
 Lemma apply_delay_for : forall v c mt,
   mget K_DFOR (apply_delay v c mt) = MDur (next_delay v c (mget K_DFOR mt))
-  /\ mget K_DUNTIL (apply_delay v c mt) = MUntil (next_delay v c (mget K_DFOR mt)).
+  /\ mget K_DUNTIL (apply_delay v c mt) = (let d := next_delay v c (mget K_DFOR mt) in MUntil d d).
 Proof.
   intros. unfold apply_delay. split.
   - apply mget_mset_same.
@@ -175,7 +175,7 @@ Lemma delay_frame : forall v c (h : handler) w,
   /\ match snd (h w) with
      | Fail _ _ =>
          mget K_DFOR (m_meta (w_msg (fst r))) = MDur (next_delay v c (mget K_DFOR (m_meta (w_msg (fst (h w))))))
-         /\ mget K_DUNTIL (m_meta (w_msg (fst r))) = MUntil (next_delay v c (mget K_DFOR (m_meta (w_msg (fst (h w))))))
+         /\ mget K_DUNTIL (m_meta (w_msg (fst r))) = (let d := next_delay v c (mget K_DFOR (m_meta (w_msg (fst (h w))))) in MUntil d d)
          /\ (forall k, k <> K_DFOR -> k <> K_DUNTIL ->
              mget k (m_meta (w_msg (fst r))) = mget k (m_meta (w_msg (fst (h w)))))
          /\ m_ctx (w_msg (fst r)) = m_ctx (w_msg (fst (h w)))
